@@ -458,6 +458,12 @@ func tagsOf(c *Case, o *Obs) []string {
 						if ts.Beh != "ok" {
 							faults["tool-"+ts.Beh]++
 						}
+						if ts.Unknown && ts.Beh != "convpanic" {
+							faults["opt-unknown-tool-call"]++
+							if ts.Beh != "ok" {
+								faults["opt-unknown-tool-handler-"+ts.Beh]++
+							}
+						}
 						if (ts.Beh == "panic" || ts.Beh == "convpanic") && nilPanic(ts.ID) {
 							faults["err-nil-panic-value"]++
 						}
@@ -467,6 +473,41 @@ func tagsOf(c *Case, o *Obs) []string {
 		}
 	}
 	walk(c.G)
+	// local state used by the bodies (only where a state is in scope)
+	var stWalk func(g *Graph, scoped bool)
+	stWalk = func(g *Graph, scoped bool) {
+		if g.State {
+			faults["opt-local-state"]++
+		}
+		scoped = scoped || len(stateOpts(g)) > 0
+		use := func(beh string, st int) {
+			if !scoped || st < 1 || st > 2 {
+				return
+			}
+			faults["opt-body-uses-state"]++
+			if beh != "ok" {
+				faults[[]string{"", "opt-fault-inside-state-handler", "opt-fault-after-state-update"}[st]]++
+			}
+			if beh == "panic" && st == 1 {
+				faults["opt-panic-inside-state-handler"]++
+			}
+		}
+		for _, st := range g.Stages {
+			for _, n := range st {
+				switch n.Kind {
+				case "sub":
+					stWalk(n.Sub, scoped)
+				case "lam":
+					use(n.Beh, n.St)
+				case "tools":
+					for _, ts := range n.Tools {
+						use(ts.Beh, ts.St)
+					}
+				}
+			}
+		}
+	}
+	stWalk(c.G, false)
 	for s, st := range c.G.Stages {
 		if len(st) == 1 && st[0].Beh == "item" && s+1 < len(c.G.Stages) && len(c.G.Stages[s+1]) >= 2 {
 			t = append(t, "has:shared-item")
@@ -503,6 +544,9 @@ func tagsOf(c *Case, o *Obs) []string {
 	}
 	if c.Resume {
 		t = append(t, "has:resumed-from-checkpoint")
+	}
+	if c.Conc {
+		t = append(t, "has:two-concurrent-first-calls")
 	}
 	if o.P != nil {
 		switch {
